@@ -6,7 +6,7 @@ package main
 // re-encoding first differ, independent of the wrapping type and of the position:
 //   header-root                   Header TxRoot/LogRoot of a length != 32 or an explicit EmptyTrieHash   (block.go:231-240)
 //   nil-pointer-as-empty-list     a `rlp:"nil"` pointer field given as 0xC0                               (rlp/decode.go:455)
-//   profile                       anything inside / instead of a types.Profile                           (account_data.go:91-107)
+//   profile/<shape>               Profile.DecodeRLP laxness, pinned to its witness shapes (c14kProfileShape)    (account_data.go:91-107)
 //   changelog-payload/<decoder>   NewVal/Extra of a change log, named after the registered decoder        (account/change_log.go:121-250)
 //   changelog-eol                 a change log with fewer than 5 elements inside a list                   (change_log.go:103-131 + rlp/decode.go:323)
 // Everything else keeps a distinct descriptive class:
@@ -281,7 +281,7 @@ func c14kClassify(ty *c14kTy, w, r []byte, path string) (string, string) {
 		return "untyped", path
 	}
 	if ty.kind == c14kProfile {
-		return "profile", path
+		return c14kProfileShape(w), path
 	}
 	if !c14kHeaderCanon(w) {
 		return "rlp-level/" + ty.name, path
@@ -297,8 +297,8 @@ func c14kClassify(ty *c14kTy, w, r []byte, path string) (string, string) {
 			return "changelog-eol", path + ".ChangeLogs"
 		}
 		if len(ws) != len(rs) || len(ws) != len(ty.fields) {
-			if len(ws) < len(ty.fields) && ty.fields[len(ws)].ty.kind == c14kProfile {
-				return "profile", path + "." + ty.fields[len(ws)].name + "(missing)"
+			if len(ws)+1 == len(ty.fields) && len(rs) == len(ty.fields) && ty.fields[len(ws)].ty.kind == c14kProfile && bytes.Equal(rs[len(ws)], []byte{0xc0}) {
+				return "profile/missing-field", path + "." + ty.fields[len(ws)].name + "(missing)"
 			}
 			return ty.name + "-field-count", path
 		}
@@ -388,10 +388,81 @@ func c14kPayload_(lt types.ChangeLogType, which int, w, r []byte, path string) (
 		}
 		return cl, pp
 	case dec == "decodeCandidate" && nonEmptyList:
-		return "profile", path
+		return c14kProfileShape(w), path
 	}
 	if !c14kStrict(w, 0) {
 		return "rlp-level/changelog-payload", path
 	}
-	return "changelog-payload/" + dec, path
+	// pinned witness shapes of the known laxness of each decoder; anything else is a different defect
+	sizeZeroNonList := okw && !isList && (len(content) == 0 || (len(w) == 1 && w[0] < 0x80))
+	switch dec {
+	case "decodeHash":
+		if okw && !isList && len(content) != 32 {
+			return "changelog-payload/decodeHash", path
+		}
+	case "decodeAddress":
+		if okw && !isList && len(content) != 20 {
+			return "changelog-payload/decodeAddress", path
+		}
+	case "decodeEmptyInterface", "decodeSigners", "decodeAsset", "decodeEquity", "decodeProfileChangeLogExtra":
+		// `size <= 0` accepts the empty string and a single byte < 0x80 for nil, which is written 0xC0
+		if sizeZeroNonList && bytes.Equal(r, []byte{0xc0}) {
+			return "changelog-payload/" + dec, path
+		}
+	}
+	return "changelog-payload-other/" + dec, path
+}
+
+// c14kProfileShape pins the known laxness of Profile.DecodeRLP (account_data.go:91-107) to its witness shapes:
+//
+//	profile/empty-form     a size-zero header that is not 0xC0 (0x80, a single byte < 0x80, or a non-canonical
+//	                       size-zero header like 0xF800: the error of Stream.Kind is ignored)
+//	profile/duplicate-key  a list of well-formed (key, value) pairs in which a key occurs twice
+//	profile/unsorted       a list of well-formed pairs with distinct keys that are not in ascending order
+//
+// anything else that reaches a Profile is reported as profile-other (a different defect).
+func c14kProfileShape(w []byte) string {
+	isList, content, rest, ok := c14kItem(w)
+	if !ok || len(rest) != 0 {
+		return "profile-other"
+	}
+	if len(content) == 0 || (len(w) == 1 && w[0] < 0x80) {
+		if bytes.Equal(w, []byte{0xc0}) {
+			return "profile-other"
+		}
+		return "profile/empty-form"
+	}
+	if !isList || !c14kStrict(w, 0) {
+		return "profile-other"
+	}
+	items, ok := c14kSplit(w)
+	if !ok {
+		return "profile-other"
+	}
+	var keys []string
+	for _, it := range items {
+		kv, ok := c14kSplit(it)
+		if !ok || len(kv) != 2 {
+			return "profile-other"
+		}
+		l1, k, _, _ := c14kItem(kv[0])
+		l2, _, _, _ := c14kItem(kv[1])
+		if l1 || l2 {
+			return "profile-other"
+		}
+		keys = append(keys, string(k))
+	}
+	seen := map[string]bool{}
+	for _, k := range keys {
+		if seen[k] {
+			return "profile/duplicate-key"
+		}
+		seen[k] = true
+	}
+	for i := 1; i < len(keys); i++ {
+		if keys[i-1] > keys[i] {
+			return "profile/unsorted"
+		}
+	}
+	return "profile-other"
 }
